@@ -1,12 +1,13 @@
 PROP = {
     "id": "C43",
     "theorem_modules": ["Verif.Properties.C43"],
-    "min_theorems": 4,
+    "min_theorems": 5,
     "required_theorems": [
         "Verif.Properties.C43.json_erasure_absorbs_ccf_erasure",
         "Verif.Properties.C43.ccf_erasure_keeps_type_ids",
         "Verif.Properties.C43.agree_partial",
         "Verif.Properties.C43.agree_json_side",
+        "Verif.Properties.C43.agree_on_proved_subset_partial",
     ],
     "gen": [["vtool", "gen-ccftags"]],
     "tool_files": ["tool_ccftags.go"],
@@ -25,7 +26,10 @@ PROP = {
                   "decode) is encoded both ways and decoded by both Go decoders; json.Decode's value = erase v (model), "
                   "Erase(ccf.Decode's value) = erase (eraseV v) in key order (model), and the harness-side comparer (Erase, "
                   "dictionaries as sets, value-level types by Type().ID()) finds the two decoded values equal.",
-    "level_note": "Partial: conditional corollary (the full round trips of C41 / C42 are correspondence-checked). JSON-decoded "
+    "level_note": "Partial: unconditional (agree_on_proved_subset_partial) on the subset where both round trips are proved "
+                  "(scalars, optionals, arrays, dictionaries, ranges, capabilities; no composite types; equality after erasure when no "
+                  "dictionary is reordered, otherwise the CCF entries are a permutation), conditional corollary elsewhere (the full "
+                  "round trips of C41 / C42 are correspondence-checked). JSON-decoded "
                   "arrays / dictionaries have no type (Go nil), so type IDs are compared where both decoders give a type. Known "
                   "findings inherited from C41 / C42 (nil ambiguity of optionals in CCF; initializer repeating a field type in JSON).",
     "assumptions": ["capability borrow types are compared by type ID (CCF carries them as inline types)"],
